@@ -1,6 +1,8 @@
 package rules
 
 import (
+	"go/constant"
+	"go/types"
 	"fmt"
 	"go/token"
 	"strings"
@@ -467,4 +469,173 @@ func sliceLiteralElems(v ssa.Value) []ssa.Value {
 		}
 	}
 	return out
+}
+
+// flagParam: a parameter that carries the dry-run decision: the bool itself (Dry == nil), or a value of a small typed
+// constant set into which a converter of the repository encoded the bool (Dry: the constant that stands for "dry run").
+type flagParam struct {
+	P   *ssa.Parameter
+	Dry *ssa.Const
+}
+
+func sameConst(a, b *ssa.Const) bool {
+	if a == nil || b == nil || a.Value == nil || b.Value == nil {
+		return false
+	}
+	return types.Identical(a.Type(), b.Type()) && constant.Compare(a.Value, token.EQL, b.Value)
+}
+
+// encodesBool: a is the result of a call of a repository converter 'func(b bool) T' whose returns are constants
+// selected by b, and the converter is handed (a value that comes from) p. Returns the constant for b == true.
+func encodesBool(a ssa.Value, p *ssa.Parameter) *ssa.Const {
+	var tc *ssa.Const
+	core.WithoutInlining(func() {
+		c, ok := a.(*ssa.Call)
+		if !ok {
+			return
+		}
+		g := c.Call.StaticCallee()
+		if g == nil || g.Blocks == nil || len(g.Params) != 1 || len(c.Call.Args) != 1 || !strings.HasPrefix(core.PkgPath(g), core.Module) {
+			return
+		}
+		if bt, isB := g.Params[0].Type().Underlying().(*types.Basic); !isB || bt.Kind() != types.Bool {
+			return
+		}
+		if c.Call.Args[0] != ssa.Value(p) && !core.HasOrigin(c.Call.Args[0], p) {
+			return
+		}
+		var onTrue, onFalse *ssa.Const
+		for _, ret := range core.Returns(g) {
+			if len(ret.Results) != 1 {
+				return
+			}
+			k, isC := ret.Results[0].(*ssa.Const)
+			if !isC {
+				return
+			}
+			confined := false
+			for _, gd := range core.GuardsOf(ret) {
+				v, neg := core.StripNot(gd.If.Cond)
+				if v != ssa.Value(g.Params[0]) {
+					continue
+				}
+				confined = true
+				if gd.CondTrue() != neg {
+					onTrue = k
+				} else {
+					onFalse = k
+				}
+			}
+			if !confined {
+				// the fall-through return: the other outcome
+				if onFalse == nil {
+					onFalse = k
+				} else if onTrue == nil {
+					onTrue = k
+				}
+			}
+		}
+		if onTrue != nil && onFalse != nil && !sameConst(onTrue, onFalse) {
+			tc = onTrue
+		}
+	})
+	return tc
+}
+
+var dryFlagMemo = map[*ssa.Function]*flagParam{}
+
+// dryFlagOf: the parameter of f that carries the dry-run decision of the transaction: a bool parameter named dryRun,
+// or the parameter that every... some caller hands its own dry-run flag to, as it is or encoded by a converter.
+func dryFlagOf(w *core.World, f *ssa.Function, depth int) *flagParam {
+	if f == nil {
+		return nil
+	}
+	if fp, ok := dryFlagMemo[f]; ok {
+		return fp
+	}
+	dryFlagMemo[f] = nil
+	if p := core.Param(f, "dryRun"); p != nil {
+		if bt, isB := p.Type().Underlying().(*types.Basic); isB && bt.Kind() == types.Bool {
+			dryFlagMemo[f] = &flagParam{P: p}
+			return dryFlagMemo[f]
+		}
+	}
+	if depth > 3 {
+		return nil
+	}
+	for _, g := range w.RepoFns {
+		for _, c := range core.OwnCalls(g) {
+			if c.Common().StaticCallee() != f {
+				continue
+			}
+			top := g
+			for top.Parent() != nil {
+				top = top.Parent()
+			}
+			fg := dryFlagOf(w, top, depth+1)
+			if fg == nil {
+				continue
+			}
+			for i, a := range c.Common().Args {
+				if i >= len(f.Params) {
+					continue
+				}
+				if fg.Dry == nil {
+					if tc := encodesBool(a, fg.P); tc != nil {
+						dryFlagMemo[f] = &flagParam{P: f.Params[i], Dry: tc}
+						return dryFlagMemo[f]
+					}
+				}
+				if a == ssa.Value(fg.P) || core.HasOrigin(a, fg.P) {
+					dryFlagMemo[f] = &flagParam{P: f.Params[i], Dry: fg.Dry}
+					return dryFlagMemo[f]
+				}
+			}
+		}
+	}
+	return nil
+}
+
+// isTest: cond tests the flag; dryOnTrue tells whether its true outcome means "dry run".
+func (fp *flagParam) isTest(cond ssa.Value) (ok, dryOnTrue bool) {
+	if fp == nil {
+		return false, false
+	}
+	v, neg := core.StripNot(cond)
+	if fp.Dry == nil {
+		if v == ssa.Value(fp.P) || core.HasOrigin(v, fp.P) {
+			return true, !neg
+		}
+		return false, false
+	}
+	a, b, eqOnTrue, isEq := core.EqTest(cond)
+	if !isEq {
+		return false, false
+	}
+	for _, pair := range [][2]ssa.Value{{a, b}, {b, a}} {
+		k, isC := pair[1].(*ssa.Const)
+		if !isC || !sameConst(k, fp.Dry) {
+			continue
+		}
+		if pair[0] == ssa.Value(fp.P) || core.HasOrigin(pair[0], fp.P) {
+			return true, eqOnTrue
+		}
+	}
+	return false, false
+}
+
+// guarded: x executes only when "dry run" has the value want.
+func (fp *flagParam) guarded(x ssa.Instruction, want bool) bool {
+	if fp == nil {
+		return false
+	}
+	if fp.Dry == nil {
+		return core.GuardedByValue(x, fp.P, want)
+	}
+	for _, a := range core.GuardAtoms(x) {
+		if ok, dryOnTrue := fp.isTest(a.Cond); ok && (dryOnTrue == a.True) == want {
+			return true
+		}
+	}
+	return false
 }
